@@ -84,6 +84,20 @@ def workload(tier, seed, scale=1.0):
     for radix in range(2, 257):
         vals = values_for_radix(rnd, radix, quick)
         pick_bigs = bigs if (not quick or radix in (2, 3, 7, 8, 10, 16, 32, 36, 64, 100, 128, 255, 256)) else [rnd.choice(bigs)]
+        # values above the big-base threshold whose output has long interior zero runs: radix^k + small,
+        # a*radix^k + b*radix^j + c (k chosen so that the value has well over 64 native digits)
+        import math
+        kmin = int(64 * 64 / math.log2(radix)) + 5
+        sparse = []
+        for _ in range(2 if quick else 5):
+            k = kmin + rnd.randrange(0, kmin)
+            j = rnd.randrange(1, k)
+            sparse.append(('sparse_big', radix ** k + rnd.randrange(radix)))
+            sparse.append(('sparse_big3', rnd.randrange(1, radix) * radix ** k + rnd.randrange(radix) * radix ** j + rnd.randrange(1, radix)))
+            sparse.append(('sparse_bigm1', radix ** k - 1 - rnd.randrange(radix) * radix ** j))
+        if radix & (radix - 1) == 0 and quick:
+            sparse = sparse[:1]
+        pick_bigs = list(pick_bigs) + sparse
         for fam, v in vals + pick_bigs:
             if scale < 1.0 and rnd.random() > scale:
                 continue
